@@ -315,6 +315,39 @@ func (w *World) RelayAck(p packettypes.Packet, ack []byte) (*sdk.Result, error) 
 	return w.Deliver(src, packettypes.NewMsgAcknowledgement(bz, ack, proof, h, src.SenderAcc))
 }
 
+// DeliverRecvAt delivers MsgRecvPacket(bz) about packet p (p's source chain is genuine) on chain x, which need not be
+// p's destination, with a genuine proof of whatever p's source chain stores under p's commitment key (when x has a
+// light client of the source chain; a dummy proof otherwise).
+func (w *World) DeliverRecvAt(x *xibctesting.TestChain, p packettypes.Packet, bz []byte) (*sdk.Result, error) {
+	src := w.Chains[idx(w, p.SrcChain)]
+	proof, h := []byte("no proof"), clienttypes.NewHeight(0, 1)
+	if x != src {
+		if _, ok := x.App.XIBCKeeper.ClientKeeper.GetClientState(x.GetContext(), src.ChainID); ok {
+			if err := w.UpdateClient(x, src); err != nil {
+				return nil, fmt.Errorf("update client: %w", err)
+			}
+			proof, h = w.proofAt(src, x, host.PacketCommitmentKey(p.SrcChain, p.DstChain, p.Sequence))
+		}
+	}
+	return w.Deliver(x, packettypes.NewMsgRecvPacket(bz, proof, h, x.SenderAcc))
+}
+
+// DeliverAckAt delivers MsgAcknowledgement(bz, ack) about packet p on chain x, which need not be p's source, with a
+// genuine proof of whatever p's destination chain stores under p's acknowledgement key (when x has a light client of it).
+func (w *World) DeliverAckAt(x *xibctesting.TestChain, p packettypes.Packet, bz []byte, ack []byte) (*sdk.Result, error) {
+	dst := w.Chains[idx(w, p.DstChain)]
+	proof, h := []byte("no proof"), clienttypes.NewHeight(0, 1)
+	if x != dst {
+		if _, ok := x.App.XIBCKeeper.ClientKeeper.GetClientState(x.GetContext(), dst.ChainID); ok {
+			if err := w.UpdateClient(x, dst); err != nil {
+				return nil, fmt.Errorf("update client: %w", err)
+			}
+			proof, h = w.proofAt(dst, x, host.PacketAcknowledgementKey(p.SrcChain, p.DstChain, p.Sequence))
+		}
+	}
+	return w.Deliver(x, packettypes.NewMsgAcknowledgement(bz, ack, proof, h, x.SenderAcc))
+}
+
 // ---------------------------------------------------------------------------------------------------------------
 // tokens
 // ---------------------------------------------------------------------------------------------------------------
@@ -335,6 +368,22 @@ func (w *World) DeployERC20(c *xibctesting.TestChain) common.Address {
 	}
 	grant, _ := erc20ABI.Pack("grantRole", common.BytesToHash(crypto.Keccak256([]byte("MINTER_ROLE"))), c.SenderAddress)
 	if err := w.moduleCall(c, endpointAddr, &addr, grant); err != nil {
+		panic(err)
+	}
+	return addr
+}
+
+// DeployEmitter deploys a 44-byte contract whose only behaviour is LOG1(calldata, topic = PacketSent(bytes)): a user
+// contract that "emits" any PacketSent event it is asked to.  Runtime: CALLDATASIZE PUSH1 0 PUSH1 0 CALLDATACOPY
+// PUSH32 <topic> CALLDATASIZE PUSH1 0 LOG1 STOP; init code copies it to memory and returns it.
+func (w *World) DeployEmitter(c *xibctesting.TestChain) common.Address {
+	topic := packetABI.Events["PacketSent"].ID
+	runtime := append([]byte{0x36, 0x60, 0x00, 0x60, 0x00, 0x37, 0x7f}, topic.Bytes()...)
+	runtime = append(runtime, 0x36, 0x60, 0x00, 0xa1, 0x00)
+	init := append([]byte{0x60, byte(len(runtime)), 0x80, 0x60, 0x0b, 0x60, 0x00, 0x39, 0x60, 0x00, 0xf3}, runtime...)
+	nonce := c.App.EvmKeeper.GetNonce(c.GetContext(), endpointAddr)
+	addr := crypto.CreateAddress(endpointAddr, nonce)
+	if err := w.moduleCall(c, endpointAddr, nil, init); err != nil {
 		panic(err)
 	}
 	return addr
